@@ -43,6 +43,7 @@ class Contract:
         self.sections = {}      # name -> list of (lineno, text)
         self.order = []
         self.expect_loops = None
+        self.loopnames = {}
         self.opts = {}
         if not os.path.exists(path):
             return
@@ -53,6 +54,11 @@ class Contract:
                 cur = m.group(1).strip()
                 if cur.startswith('loops '):
                     self.expect_loops = int(cur.split()[1])
+                    cur = None
+                    continue
+                mm = re.match(r'^name\s+([A-Za-z_][A-Za-z0-9_]*)\s*(\??)=\s*loop\s+"(.*)"\s*(?:#(\d+))?$', cur)
+                if mm:
+                    self.loopnames[mm.group(1)] = (mm.group(3), int(mm.group(4) or 0), mm.group(2) == '?')
                     cur = None
                     continue
                 if cur.startswith('opt '):
@@ -366,16 +372,69 @@ class FnEmitter:
             k += 1
 
         loops = loop_heads(toks, bopen + 1, bclose)
+        isolated = not any('loop_isolation(false)' in l for _, l in (con.get('attr') or []))
+        if not isolated and loops:
+            self.info.setdefault('non_isolated', []).append(key)
         if con.expect_loops is not None and con.expect_loops != len(loops):
             raise Undecided('loop structure changed in %s: contract expects %d loops, source has %d'
                             % (key, con.expect_loops, len(loops)))
+        # loop names:  [name L = loop "header text" #k]   ('?=' makes the loop optional)
+        headers = [norm_ws(text[toks[lp['kw_idx']].start:toks[lp['open_idx']].start]) for lp in loops]
+        aliases = {i: [str(i)] for i in range(len(loops))}
+        missing_names = set()
+        for sname in list(con.sections) + list(con.opts):
+            pass
+        for nm, (pat, occ, optional) in con.loopnames.items():
+            hits = [i for i, h in enumerate(headers) if h == norm_ws(pat)]
+            if occ < len(hits):
+                aliases[hits[occ]].append(nm)
+            elif optional:
+                missing_names.add(nm)
+            else:
+                raise Undecided('lost anchor in %s: loop %s (%r #%d) not found; loop headers are %r'
+                                % (key, nm, pat, occ, headers))
+        # every loop-related section must refer to an existing loop
+        known = set(a for al in aliases.values() for a in al) | missing_names
+        for sname in con.sections:
+            ref = None
+            m = re.match(r'^loop\s+(\S+)', sname)
+            if m:
+                ref = m.group(1)
+            m = re.match(r'^at\s+(\S+)\.(start|end)$', sname)
+            if m:
+                ref = m.group(1)
+            m = re.match(r'^(before|after)\s+([A-Za-z_][A-Za-z0-9_]*)$', sname)
+            if m:
+                ref = m.group(2)
+            if ref is None or ref == 'body':
+                continue
+            if re.match(r'^loop\d+$', ref):
+                ref = ref[4:]
+            if ref.isdigit():
+                if int(ref) >= len(loops):
+                    raise Undecided('loop structure changed in %s: contract section [%s] but source has %d loops' % (key, sname, len(loops)))
+            elif ref not in known:
+                raise Undecided('contract %s refers to unknown loop name in [%s]' % (rel_c, sname))
+
+        def sec_for(prefix, li, suffix=''):
+            """find the section for loop li under any of its aliases"""
+            for a in aliases[li]:
+                for s in con.sections:
+                    if suffix:
+                        if s == '%s %s%s' % (prefix, a, suffix) or s == '%s%s%s' % (prefix, a, suffix):
+                            return s
+                    else:
+                        if s == '%s %s' % (prefix, a) or s.startswith('%s %s ' % (prefix, a)):
+                            return s
+            return None
+
         for li, lp in enumerate(loops):
             opn = toks[lp['open_idx']]
             cls = toks[lp['close_idx']]
-            names = [s for s in con.sections if s.startswith('loop %d' % li) and (s == 'loop %d' % li or s[len('loop %d' % li)] == ' ')]
             inv = []
             itername = None
-            for s in names:
+            s = sec_for('loop', li)
+            if s:
                 inv = block_text(s)
                 m = re.search(r'iter=([A-Za-z_][A-Za-z0-9_]*)', s)
                 if m:
@@ -394,24 +453,25 @@ class FnEmitter:
                 self.counts['R8'] = self.counts.get('R8', 0) + 1
             if inv:
                 edits.append((opn.start, opn.start, ('\n', inv, ''), 'block'))
-            if self.canary:
+            nested = any(toks[o['open_idx']].start < toks[lp['kw_idx']].start < toks[o['close_idx']].start for o in loops if o is not lp)
+            if (self.canary == 'A' and isolated) or (self.canary == 'B' and not isolated and not nested):
                 edits.append((opn.end, opn.end, ('\n', [('assert(false); // CANARY', {'k': 'canary', 'fn': key, 'where': 'loop%d' % li})], ''), 'block2'))
-            st = block_text('at loop%d.start' % li)
-            if st:
-                edits.append((opn.end, opn.end, ('\n', st, ''), 'block2'))
-            en = block_text('at loop%d.end' % li)
-            if en:
-                edits.append((cls.start, cls.start, ('\n', en, ''), 'block'))
-            bf = block_text('before loop%d' % li)
-            if bf:
-                kw = toks[lp['kw_idx']]
-                # handle labels 'a: loop -- not used
-                edits.append((kw.start, kw.start, ('\n', bf, ''), 'block'))
-            af = block_text('after loop%d' % li)
-            if af:
-                edits.append((cls.end, cls.end, ('\n', af, ''), 'block2'))
+            for a in aliases[li]:
+                st = block_text('at %s.start' % a) or (block_text('at loop%s.start' % a) if a.isdigit() else None)
+                if st:
+                    edits.append((opn.end, opn.end, ('\n', st, ''), 'block2'))
+                en = block_text('at %s.end' % a) or (block_text('at loop%s.end' % a) if a.isdigit() else None)
+                if en:
+                    edits.append((cls.start, cls.start, ('\n', en, ''), 'block'))
+                bf = block_text('before %s' % a) if not a.isdigit() else block_text('before loop%s' % a)
+                if bf:
+                    kw = toks[lp['kw_idx']]
+                    edits.append((kw.start, kw.start, ('\n', bf, ''), 'block'))
+                af = block_text('after %s' % a) if not a.isdigit() else block_text('after loop%s' % a)
+                if af:
+                    edits.append((cls.end, cls.end, ('\n', af, ''), 'block2'))
 
-        if self.canary:
+        if self.canary == 'A':
             edits.append((toks[bopen].end, toks[bopen].end, ('\n', [('assert(false); // CANARY', {'k': 'canary', 'fn': key, 'where': 'body'})], ''), 'block2'))
         st = block_text('at body.start')
         if st:
@@ -535,7 +595,12 @@ class FnEmitter:
                 if p:
                     if cur_o is None or (o.get('k') == 'contract' and cur_o.get('k') != 'contract'):
                         if p.strip() or cur_o is None:
-                            cur_o = o
+                            if o.get('k') == 'src' and pi > 0:
+                                o2 = dict(o)
+                                o2['line'] = o['line'] + pi
+                                cur_o = o2
+                            else:
+                                cur_o = o
                     cur += p
         if cur:
             out.add(cur, cur_o or {'k': 'gen'})
@@ -619,7 +684,7 @@ def build(unit, repo_root, diff=False, canary=False):
             FnEmitter(repo, parts[1], parts[2], cmd, counts, info, canary=canary).emit(out)
         else:
             raise Undecided('bad unit directive: %s' % line)
-    if canary:
+    if canary == 'A':
         out.add('proof fn canary_global() { assert(false); } // CANARY', {'k': 'canary', 'fn': '<global>', 'where': 'axioms'})
     out.add('} // verus!', {'k': 'gen'})
     out.add('fn main() {}', {'k': 'gen'})
@@ -634,7 +699,7 @@ def main():
     ap.add_argument('--repo', default='/repo')
     ap.add_argument('--out', default=None)
     ap.add_argument('--diff', action='store_true')
-    ap.add_argument('--canary', action='store_true')
+    ap.add_argument('--canary', default=False, choices=['A', 'B'])
     a = ap.parse_args()
     try:
         out, info = build(a.unit, a.repo, canary=a.canary)
@@ -659,7 +724,7 @@ def main():
             for d in difflib.unified_diff(a_lines, b_lines, 'repo:' + f['fn'], 'generated:' + f['fn'], lineterm=''):
                 print(d)
         return
-    outp = a.out or os.path.join(VERIF, 'build', 'gen', a.unit + ('_canary' if a.canary else '') + '.rs')
+    outp = a.out or os.path.join(VERIF, 'build', 'gen', a.unit + ('_canary' + a.canary if a.canary else '') + '.rs')
     os.makedirs(os.path.dirname(outp), exist_ok=True)
     open(outp, 'w').write(out.text())
     json.dump({'info': info, 'origin': out.origin}, open(outp + '.map.json', 'w'))
